@@ -148,13 +148,21 @@ func (m *c13Model) child(scope int, seg [amlNameLen]byte) int {
 // c13OpNamed reports whether the opcode table flags op as a named object. It
 // scans the table by opcode value and does not use the index cached in objects.
 func c13OpNamed(op uint16) bool {
+	if v, ok := c13NamedCache[op]; ok {
+		return v
+	}
+	v := false
 	for i := range pOpcodeTable {
 		if pOpcodeTable[i].op == op {
-			return pOpcodeTable[i].flags&pOpFlagNamed != 0
+			v = pOpcodeTable[i].flags&pOpFlagNamed != 0
+			break
 		}
 	}
-	return false
+	c13NamedCache[op] = v
+	return v
 }
+
+var c13NamedCache = map[uint16]bool{}
 
 // closestNamedAncestor: nearest ancestor whose kind is named; -1 when an
 // unresolved Scope directive is met first or there is none.
